@@ -1,5 +1,6 @@
 """C14 -- skip_brute and all_lower are pure restrictions of the default run."""
 from pyvc.runner import Prop, Bounded, script_replay
+from pyvc import effects
 import contracts.guesser_core as gc
 import contracts.guesser_loader as gld
 import contracts.guesser_session as gs
@@ -19,6 +20,7 @@ PROP = Prop(
     functions=[gld.GIO + ':_load_base_structures', 'pcfg_guesser:load_save', 'pcfg_guesser:parse_command_line', 'pcfg_guesser:main'],
     lemmas=lambda: gld.firstm_stable.lemmas(),
     setup=gs.install,
+    effects=effects.state_frame_for('C14', ['lib_guesser/pcfg_grammar.py', 'lib_guesser/priority_queue.py', 'lib_guesser/grammar_io.py', 'pcfg_guesser.py']),
     level='other',
     replay=replay,
     bounded=[
